@@ -1,6 +1,6 @@
 import OdxVerif.Props.C15GenLookup
 import OdxVerif.Proofs.ComparamAccessorsGenEq
-/-! # C15 — five typed accessors through the functions GENERATED from the source (task W28)
+/-! # C15 — six typed accessors through the functions GENERATED from the source (task W28)
 
     `Gen.getCanFuncReqIdE`, `Gen.getDoipLogicalGatewayAddressE`, `Gen.getDoipLogicalTesterAddressE`,
     `Gen.getDoipLogicalFunctionalAddressE`, `Gen.getDoipRoutingActivationTypeE` (`Gen/ComparamAccessors.lean`) are regenerated from
@@ -26,6 +26,16 @@ theorem C15_gen_accessors_spec (L : Layer) (p : Option Gen.ProtoArg) (r : Res)
     (h : specAccessor .canFuncReqId (fun n => getComparam L n (protoName p)) = some r) :
     toRes (Gen.getCanFuncReqIdE (available L) p) = r := by
   rw [(C15_gen_accessors_int L p).1]; exact C15_accessors_layer _ L _ r h
+
+/-- **Tie.** `get_can_baudrate` on every layer, for every `protocol` argument: the model's accessor (a complex value of `CP_Baudrate`
+    is answered with `None`, an omitted value with the default of the specification) -/
+theorem C15_gen_can_baudrate (L : Layer) (p : Option Gen.ProtoArg) :
+    toRes (Gen.getCanBaudrateE (available L) p) = layerAccessor .canBaudrate L (protoName p) :=
+  gen_canBaudrate_eq _ p
+
+example : Gen.getCanBaudrateE (available exBv) (some (.name "P")) = .ok (some 222) := by decide
+example : Gen.getCanBaudrateE (available exBv) (some (.layer "Q")) = .ok (some 500000) := by decide    -- omitted value: the default
+example : Gen.getCanBaudrateE [⟨0, "BR", none, .list [.str "1"], exSpec⟩] none = .ok none := by decide  -- complex value: None, no exception
 
 /-- a functional group with a functional request id for protocol `P` (value given), a generic one (value omitted: the default), a
     gateway address that is no number and a routing activation type given as a complex value -/
